@@ -21,8 +21,8 @@ CLAIMED = {
   "note": "So far only the Encoder is covered by a theorem; builders, editors, selector writers and convert_to_comparable follow (DESIGN section 6 C17).",
  },
  "C18": {
-  "text": "Theorems: every i64/u64/f64 bit pattern survives compact_encode/decode exactly (NaN to canonical NaN, infinities preserved), in the shortest of the 1/2/3/5/9-byte forms; Number::decode's model never panics and rejects empty input and trailing bytes; the i64/u64 views are exact or absent. Correspondence: all boundary numbers, every tag x payload length 0..9, 16-bit payload sweeps, random 64-bit patterns.",
-  "note": "Defect D2 (decode panics / accepts trailing bytes) repaired in 62e309b. Ordering theorems (total order by exact value across int/uint/float) are not yet in: they need the exact integer-vs-float comparison (defect D10).",
+  "text": "Theorems: every i64/u64/f64 bit pattern survives compact_encode/decode exactly (NaN to canonical NaN, infinities preserved) in the shortest of the 1/2/3/5/9-byte forms; Number::decode's model never panics and rejects empty input and trailing bytes; the literal model of `impl Ord for Number` (nine arms, cmp_int_float, OrderedFloat on bit patterns) equals the mathematical order of exact values with NaN greatest, hence a total order; int = uint iff same integer; int = float iff same real; i64/u64 views exact or absent; as_f64 of a u64 within half an ulp (ties to even), exact below 2^53, monotone. Correspondence: boundary numbers pairwise, floats against their integer neighbours in both orders, random triples; order laws also evaluated on the real code (numlaws).",
+  "note": "Defects D2 (decode panics / accepts trailing bytes) and D10 (integer-vs-float comparison through `as f64`, not transitive) were repaired in /repo first. Floats are bit patterns (no Lean Float); OrderedFloat 4.x semantics read from its source and modelled; Rust `as f64` rounding modelled (ofNatRNE) and validated against the real conversion by the numview op.",
  },
 }
 
